@@ -6,7 +6,7 @@ from .. import AnalysisError
 from ..report import Ob
 from ..cfg import calls_at, call_attr, is_self_attr
 from ..state import Analysis, State, TOP, sched_calls, sched_event_type, sched_action_name, bind_call, SCHED_PARAMS
-from ..norm import Normalizer, cmp_norm, cmp_polarity, FrameEnv, ctext
+from ..norm import subst, Normalizer, cmp_norm, cmp_polarity, FrameEnv, ctext
 from .. import inventory as inv
 from .. import devices as dv
 
@@ -42,6 +42,25 @@ def doc_default(cls_node, fn, param):
         except Exception:
             return x.replace(' ', '')
     return (canon(m.group(1)) if m else None), (canon(ast.unparse(d[param])) if param in d else None)
+
+
+
+def registry_iteration(e):
+    """(iterates the (object, override) pairs of the registry in its order, iterates a snapshot) for the iterable of a loop"""
+    snap = False
+    while True:
+        if isinstance(e, ast.Call) and isinstance(e.func, ast.Name) and e.func.id in ('list', 'tuple') and len(e.args) == 1 and not e.keywords:
+            e, snap = e.args[0], True
+            continue
+        break
+    if not (isinstance(e, ast.Call) and isinstance(e.func, ast.Attribute) and e.func.attr == 'items' and not e.args and not e.keywords):
+        return False, snap
+    b = e.func.value
+    if isinstance(b, ast.Call) and isinstance(b.func, ast.Attribute) and b.func.attr == 'copy' and not b.args:
+        b, snap = b.func.value, True
+    elif isinstance(b, ast.Call) and isinstance(b.func, ast.Name) and b.func.id == 'dict' and len(b.args) == 1 and not b.keywords:
+        b, snap = b.args[0], True
+    return ast.unparse(b) == 'self._registered_objects', snap
 
 
 def check(ctx):
@@ -103,7 +122,7 @@ def check(ctx):
                     and sched_action_name(cl) == '_update_state'
                 mark('scheduled', good)
         if n.kind == 'for' and '_registered_objects' in ctext(n.ast.iter, FrameEnv(n.frame)) and 'actions' not in st.flags:
-            mark('actions', ctext(n.ast.iter, FrameEnv(n.frame)) == 'self._registered_objects.items()')
+            mark('actions', registry_iteration(subst(n.ast.iter, FrameEnv(n.frame)))[0])
         return st
     an = Analysis(P, g, ['_is_cyclical', '#end'])
     an.node_hooks.append(hook)
@@ -195,7 +214,7 @@ def check(ctx):
     o.count()
     okl = False
     why = ''
-    if len(heads) == 1 and ctext(heads[0].ast.iter, FrameEnv(heads[0].frame)) == 'self._registered_objects.items()' \
+    if len(heads) == 1 and registry_iteration(subst(heads[0].ast.iter, FrameEnv(heads[0].frame)))[0] \
             and isinstance(heads[0].ast.target, ast.Tuple) and len(heads[0].ast.target.elts) == 2 and all(isinstance(e, ast.Name) for e in heads[0].ast.target.elts):
         head = heads[0]
         ob_, ac_ = [e.id for e in head.ast.target.elts]
@@ -249,6 +268,15 @@ def check(ctx):
     else:
         o.witness('action-loop')
         o.sample({'loop': heads[0].src(), 'line': heads[0].line})
+        # an action may register or unregister objects ("affected only from the next change on"): the loop walks a snapshot of the
+        # registry -- walking the dictionary itself aborts the state change as soon as an action changes its size
+        o.count()
+        if registry_iteration(subst(heads[0].ast.iter, FrameEnv(heads[0].frame)))[1]:
+            o.witness('snapshot')
+        else:
+            o.fail(P, 'ActionScheduler._update_state', heads[0].ast.iter, 'the actions are performed while iterating over the registry itself: an action that registers or '
+                   'unregisters an object aborts the state change (RuntimeError: dictionary changed size during iteration) and the objects after it are not served, '
+                   'instead of the change taking effect from the next state change on', node=heads[0])
     # the actions are performed by state changes only: nothing else (a registration, a query) invokes default_action or a stored override
     owners = inv.covered(P, {'_update_state', 'initialize'})       # (initialize performs the start-up state entry -- C18.4)
     for s_ in inv.method_calls(P, 'default_action'):
